@@ -98,8 +98,8 @@ class Builder(object):
             k = len(srcs)
             opts = []
             if self.g["join"]:
-                opts += ["all", "all", k]
-                if self.g["join_partial"] and k >= 2:
+                opts += ["all", "all", k if not e["_in_loop"] else "all"]
+                if self.g["join_partial"] and k >= 2 and not e["_in_loop"]:
                     opts += [self.r.randrange(1, k)] * 3
             if self.g["split"] and not e["_in_loop"]:
                 opts += [None]
